@@ -1,5 +1,32 @@
 package main
 
-type Tables struct{}
+import (
+	"os"
+	"path/filepath"
+)
 
-func LoadTables(dir string) (*Tables, error) { return &Tables{}, nil }
+// Tables: frozen oracle tables derived from the property statements and from confirmed reading of the code
+// (never source text or positions; functions are named by their resolved keys).
+type Tables struct {
+	// E4
+	CommutativeCallees map[string]string   `json:"commutative_callees"` // callee -> reason
+	RangeProps         map[string][]string `json:"range_props"`         // function -> extra properties its map ranges serve
+	RangeExempt        map[string]string   `json:"range_exempt"`        // function -> reason (exemption granted by a property statement)
+	Orders             []OrderSpec         `json:"orders"`
+	SchedAllowed       map[string]string   `json:"sched_allowed"`
+	Floors             map[string]int      `json:"floors"`
+}
+
+func LoadTables(dir string) (*Tables, error) {
+	t := &Tables{CommutativeCallees: map[string]string{}, RangeProps: map[string][]string{}, RangeExempt: map[string]string{}, SchedAllowed: map[string]string{}, Floors: map[string]int{}}
+	for _, f := range []string{"e4.json"} {
+		path := filepath.Join(dir, f)
+		if _, err := os.Stat(path); err != nil {
+			continue
+		}
+		if err := readJSON(path, t); err != nil {
+			return nil, err
+		}
+	}
+	return t, nil
+}
